@@ -82,7 +82,13 @@ def make_read(gene, s, e, variants):
                 if x != ".":
                     subs[pos + i] = y
         elif op.startswith("ins"):
-            ins[pos] = op[3:]
+            # catalogue convention (also what `_realign_indels` hands to indelpost): inserted AFTER genome base `pos`;
+            # written the way an aligner reports it: shifted to the leftmost equivalent position
+            x, q = op[3:], pos
+            while LEFT_ALIGN and q - 1 >= s and ref_base(gene, q) == x[-1]:
+                x = x[-1] + x[:-1]
+                q -= 1
+            ins[q + 1] = x
         elif op.startswith("del"):
             body = op[3:]
             if "ins" in body:
@@ -90,7 +96,10 @@ def make_read(gene, s, e, variants):
                 dels[pos] = len(d)
                 ins[pos + len(d)] = i2
             else:
-                dels[pos] = len(body)
+                q, n = pos, len(body)
+                while LEFT_ALIGN and q - 1 > s and ref_base(gene, q - 1) == ref_base(gene, q + n - 1):
+                    q -= 1
+                dels[q] = n
     p = s
     while p < e:
         if p in ins and p > s:
@@ -106,11 +115,27 @@ def make_read(gene, s, e, variants):
     return "".join(seq), cig
 
 
+LEFT_ALIGN = True   # indels in repeats are written at their leftmost position, as aligners do
+MARGIN = 10   # no read starts or ends this close to an indel of its haplotype (indelpost cannot place it there)
+PAD = 0       # (padding past the locus would put bases against the N-filled part of the reference aldy hands to indelpost)
+
+
 def avoid(positions, x):
-    """shift a chunk boundary so it is not within 2bp of an indel site"""
-    while any(a - 2 <= x <= b + 2 for a, b in positions):
+    """shift a chunk boundary so it is not within MARGIN bp of an indel site"""
+    while any(a - MARGIN <= x <= b + MARGIN for a, b in positions):
         x += 1
     return x
+
+
+def padded(gene, a, b):
+    """extend [a, b) by PAD on each side where that does not run into any region of the locus"""
+    regs = [(rr.start, rr.end) for g in gene.regions for rr in g.values() if rr.end > rr.start]
+    lo, hi = a - PAD, b + PAD
+    if any(s < a and e > lo for s, e in regs):
+        lo = a
+    if any(s < hi and e > b for s, e in regs):
+        hi = b
+    return lo, hi
 
 
 def simulate_reads(gene, copies, depth=20, read_len=60, extra_pseudo=0, name_prefix="r", weak_extra=True):
@@ -119,24 +144,41 @@ def simulate_reads(gene, copies, depth=20, read_len=60, extra_pseudo=0, name_pre
     reads = []
     n = 0
     depths = depth if isinstance(depth, (list, tuple)) else [depth] * len(copies)
+    # aldy's structure semantics: exactly two copies are *complete* (bring the pseudogene regions of their
+    # configuration); fusion / deletion configurations are always complete, default copies fill what is left
+    # and every further default copy is a pseudogene-free duplication
+    kinds = [gene.cn_configs[gene.alleles[mj].cn_config].kind.name for mj, _ in copies]
+    free = 2 - sum(1 for kd in kinds if kd != "DEFAULT")
+    weak = []
+    for kd in kinds:
+        if kd == "DEFAULT":
+            weak.append(free <= 0)
+            free -= 1
+        else:
+            weak.append(False)
+    # no read of the sample starts or ends next to an indel (or multi-substitution) of ANY copy, so that every
+    # read either spans such a site with flanks on both sides or does not reach it
+    all_spans = []
+    for mj, mn in copies:
+        for m in copy_variants(gene, mj, mn):
+            if m[1].startswith("ins"):
+                all_spans.append((m[0], m[0] + 2))
+            elif m[1].startswith("del"):
+                all_spans.append((m[0] - 1, m[0] + len(m[1]) - 3 + 1))
+            elif len(m[1]) > 3:
+                all_spans.append((m[0], m[0] + len(m[1].split(">")[0])))
     for ci, (major, minor) in enumerate(copies):
         depth = depths[ci]
         cfg = gene.alleles[major].cn_config
         variants = [m for m in copy_variants(gene, major, minor)]
-        indel_spans = []
-        for m in variants:
-            if m[1].startswith("ins"):
-                indel_spans.append((m[0] - 1, m[0] + 1))
-            elif m[1].startswith("del"):
-                indel_spans.append((m[0] - 1, m[0] + len(m[1]) - 3 + 1))
-            elif len(m[1]) > 3:
-                indel_spans.append((m[0], m[0] + len(m[1].split(">")[0])))
+        indel_spans = all_spans
         for gi in range(len(gene.regions)):
             # copies beyond the two complete haplotypes are pseudogene-free duplications
-            if gi > 0 and weak_extra and ci >= 2 and gene.cn_configs[cfg].kind.name == "DEFAULT":
+            if gi > 0 and weak_extra and weak[ci]:
                 continue
-            for (a, b) in runs_of(gene, cfg, gi):
-                vs = [m for m in variants if gi == 0 and gene.has_coverage(major, m[0]) and a <= m[0] < b]
+            for (a0, b0) in runs_of(gene, cfg, gi):
+                vs = [m for m in variants if gi == 0 and gene.has_coverage(major, m[0]) and a0 <= m[0] < b0]
+                a, b = padded(gene, a0, b0)
                 for layer in range(depth):
                     phase = (layer * 7919) % read_len
                     s = a
